@@ -36,6 +36,11 @@ where
         scaled = f64::MIN_POSITIVE.copysign(num);
     }
     let result = fun(scaled) / multiplier;
+    if result.is_infinite() && num.is_finite() {
+        // Scaling back overflowed (e.g. `f64::MAX` with a negative precision): the nearest
+        // representable value at that precision is `num` itself.
+        return num;
+    }
     if result.is_finite() || multiplier <= 1.0 {
         result
     } else {
